@@ -133,6 +133,25 @@ def run_op(pf, op, shared=None):
         b = pickle.dumps(pf)
         pf2 = pickle.loads(b)
         return [pf2.to_pandas(**_kw(op)), pf2.count(), canon(pf2.statistics), len(pf2.row_groups)]
+    if k in ("copy", "deepcopy"):    # a handle derived through the copy protocol (__copy__ / __getstate__ + __setstate__)
+        import copy
+        pf2 = copy.copy(pf) if k == "copy" else copy.deepcopy(pf)
+        return [len(pf2.row_groups), pf2.to_pandas(**_kw(op)), pf2.count(), canon(pf2.statistics)]
+    if k == "stats_fn":              # the module-level functions that take the handle are part of "statistics" use
+        from fastparquet import api
+        return canon(api.statistics(pf))
+    if k == "sorted_cols":
+        from fastparquet import api
+        return canon(api.sorted_partitioned_columns(pf, filters=_filters(op.get("filters")) or None))
+    if k == "filter_rgs":
+        from fastparquet import api
+        return [int(i) for i in api.filter_row_groups(pf, _filters(op.get("filters")), as_idx=True)]
+    if k == "meta":                  # the memoised metadata views of the handle
+        return [sha(repr(sorted((str(a), str(b)[:200]) for a, b in pf.key_value_metadata.items())))[:16],
+                sha(repr(canon(pf.pandas_metadata)))[:16], canon(pf.categories), bool(pf.has_pandas_metadata), str(pf)[:200],
+                canon(pf.info)]         # (pf.dtypes is a per-call output attribute of to_pandas: not part of any result)
+    if k == "schema_text":           # the rendering of the schema (memoised on the helper shared with derived handles)
+        return [pf.schema.text, str(pf[0:1].schema) if len(pf.row_groups) else ""]
     if k == "rebuild":               # what ParquetFile.__getitem__ did on the pinned tree for every derived handle
         from fastparquet import schema
         schema.SchemaHelper(pf._schema)
@@ -166,7 +185,7 @@ def run_op_safe(pf, op, shared=None):
 
 
 def is_exc(r):
-    return isinstance(r, list) and len(r) == 3 and r[0] == "EXC"
+    return isinstance(r, list) and len(r) == 3 and isinstance(r[0], str) and r[0] == "EXC"
 
 
 # ---------------------------------------------------------------------------------------------
@@ -176,10 +195,36 @@ def is_exc(r):
 SCRATCH_PREFIXES = ("dtypes/",)     # per-call output attribute: values are overwritten by every to_pandas, read by none
 
 
-def _leaf(v):
+OPAQUE = {}          # type name -> a path it was met at (objects the fingerprint cannot look into)
+TRUSTED_TYPES = {"_lru_cache_wrapper": "functools.lru_cache: documented thread-safe, value a function of the key",
+                 "Logger": "logging.Logger: thread-safe by documentation",
+                 "LocalFileSystem": "fsspec filesystem object: used for open() only, not inspected",
+                 "ModuleSpec": "import machinery", "SourceFileLoader": "import machinery", "ExtensionFileLoader": "import machinery",
+                 "_SpecialForm": "typing", "ABCMeta": "class object"}
+
+
+def _leaf(v, path=None):
     import numpy as np
-    if v is None or isinstance(v, (bool, int, float)):
+    import types
+    if v is None or isinstance(v, (bool, int, float, complex)):
         return repr(v)
+    if isinstance(v, (types.FunctionType, types.BuiltinFunctionType, types.MethodType, types.MethodDescriptorType,
+                      types.WrapperDescriptorType, staticmethod, classmethod, property)) or type(v).__name__ in (
+                          "cython_function_or_method", "method-wrapper", "getset_descriptor", "member_descriptor"):
+        return "fn:" + getattr(v, "__qualname__", getattr(v, "__name__", type(v).__name__))
+    if isinstance(v, type):
+        return "type:" + v.__name__
+    if isinstance(v, types.ModuleType):
+        return "mod:" + v.__name__
+    if hasattr(v, "so_far") and hasattr(v, "tell"):       # cencoding.NumpyIO: position AND content are state
+        try:
+            return "nio@%d:%s" % (v.tell(), sha(bytes(v.so_far()))[:12])
+        except Exception:           # noqa
+            return "nio:?"
+    if type(v).__name__ == "Pattern":
+        return "re:" + sha(repr(v.pattern))[:12]
+    if type(v).__name__ == "Version":
+        return "ver:" + str(v)
     if isinstance(v, (str, bytes)):
         r = repr(v)
         return r if len(r) <= 48 else "h:" + sha(r)[:12]
@@ -205,7 +250,12 @@ def _leaf(v):
             except Exception:           # noqa
                 return "pd:" + sha(repr(v))[:12]
         return repr(v)[:60]
-    return "t:" + type(v).__name__
+    tn = type(v).__name__
+    if isinstance(v, (memoryview,)):
+        return "mv%d:%s" % (v.nbytes, sha(v.tobytes())[:12])
+    if tn not in TRUSTED_TYPES and not tn.endswith("FileSystem"):
+        OPAQUE.setdefault(tn, path or "?")
+    return "t:" + tn
 
 
 def state_modules():
@@ -234,31 +284,222 @@ _MR_CACHE = [None, None]
 def module_roots():
     """cached by the identity of every global of every package module"""
     key = hash(tuple(tuple(map(id, vars(m).values())) for _, m in state_modules()) +
-               tuple(tuple(map(id, vars(c).values())) for _, c in state_classes()))
+               tuple(tuple(map(id, vars(c).values())) for _, c in package_classes()))
     if _MR_CACHE[0] != key:
         _MR_CACHE[0] = key
         _MR_CACHE[1] = _module_roots()
     return _MR_CACHE[1]
 
 
-def _module_roots():
-    """{path: object} of the module-level and class-level state of the package: every global (class attribute)
-    that is a container or a scalar.  functools.lru_cache contents cannot be inspected (trusted: documented
-    thread-safe, value a function of the key)."""
+def package_classes():
+    """every class defined in a module of the package: [(module short name, class)]"""
+    out = []
+    seen = set()
+    for name, mod in state_modules():
+        for k, v in list(vars(mod).items()):
+            if isinstance(v, type) and (getattr(v, "__module__", "") or "").startswith("fastparquet") and id(v) not in seen:
+                seen.add(id(v))
+                out.append((name, v))
+    return out
+
+
+def package_functions():
+    """every Python function defined at module or class level of the package: [(module short name, qualname, function)]"""
+    import types
+    out = []
+    seen = set()
+
+    def add(mname, qual, f):
+        f = getattr(f, "__func__", f)
+        if isinstance(f, property):
+            f = f.fget
+        f = getattr(f, "__wrapped__", f) if type(f).__name__ == "_lru_cache_wrapper" else f
+        if isinstance(f, types.FunctionType) and (f.__module__ or "").startswith("fastparquet") and id(f) not in seen:
+            seen.add(id(f))
+            out.append(((f.__module__[len("fastparquet"):].lstrip(".") or "__init__"), qual, f))
+    for name, mod in state_modules():
+        for k, v in list(vars(mod).items()):
+            if isinstance(v, type) and (getattr(v, "__module__", "") or "").startswith("fastparquet"):
+                for kk, vv in list(vars(v).items()):
+                    add(name, "%s.%s" % (v.__name__, kk), vv)
+            else:
+                add(name, k, v)
+    return out
+
+
+def function_defaults(f):
+    """{parameter name: default object}"""
+    code = f.__code__
+    names = code.co_varnames[:code.co_argcount + code.co_kwonlyargcount]
     out = {}
+    d = f.__defaults__ or ()
+    pos = names[:code.co_argcount]
+    for n_, v in zip(pos[len(pos) - len(d):], d):
+        out[n_] = v
+    out.update(f.__kwdefaults__ or {})
+    return out
+
+
+def _is_state(v):
+    """could this object hold state? (functions, classes, modules and immutable scalars cannot)"""
+    import types
+    if v is None or isinstance(v, (bool, int, float, complex, str, bytes, type, types.ModuleType, types.FunctionType,
+                                   types.BuiltinFunctionType, types.MethodType, staticmethod, classmethod, property)):
+        return False
+    if type(v).__name__ in ("cython_function_or_method", "_lru_cache_wrapper", "Pattern", "Version", "Logger", "_SpecialForm",
+                            "ModuleSpec", "SourceFileLoader", "ExtensionFileLoader", "ABCMeta", "dtype", "method_descriptor",
+                            "_Feature", "_abc_data",
+                            "getset_descriptor", "member_descriptor", "wrapper_descriptor"):
+        return False
+    import numpy as np
+    if isinstance(v, (np.generic, np.dtype)):
+        return False
+    if isinstance(v, (tuple, frozenset)):
+        return any(_is_state(x) for x in v)
+    return True
+
+
+def _module_roots():
+    """{path: object} of ALL module-level, class-level and function-level state of the package: every global of every
+    module (of any type - a scratch buffer object is state as much as a dict), every attribute of every class defined in
+    the package, every default value of every function / method, every attribute stored on a function object, the
+    cells of closures of module-level functions.  functools.lru_cache contents cannot be inspected (trusted)."""
+    out = {}
+    seen_ids = {}
     for name, mod in state_modules():
         for k, v in list(vars(mod).items()):
             if k.startswith("__"):
                 continue
-            if isinstance(v, (dict, list, set, frozenset, bytearray, tuple)) or isinstance(v, _SCALARS) or type(v).__name__ in ("CodecCache", "ndarray"):
+            if isinstance(v, _SCALARS) or _is_state(v):
+                if _is_state(v) and id(v) in seen_ids:
+                    continue            # the same object imported into another module
+                seen_ids[id(v)] = "%s/%s" % (name, k)
                 out["%s/%s" % (name, k)] = v
-    for name, cls in state_classes():
+    for name, cls in package_classes():
         for k, v in list(vars(cls).items()):
-            if k.startswith("__"):
+            if k.startswith("__") and k not in ("__defaults__",):
                 continue
-            if isinstance(v, (dict, list, set, frozenset, bytearray, tuple)) or isinstance(v, _SCALARS):
-                out["class:%s/%s" % (name, k)] = v
+            if isinstance(v, _SCALARS) or _is_state(v):
+                out["class:%s/%s" % (cls.__name__, k)] = v
+    for mname, qual, f in package_functions():
+        for pn, dv in function_defaults(f).items():
+            if _is_state(dv):
+                out["default:%s/%s.%s" % (mname, qual, pn)] = dv
+        for k, v in list(vars(f).items()):
+            if not k.startswith("__") and (isinstance(v, _SCALARS) or _is_state(v)):
+                out["fattr:%s/%s.%s" % (mname, qual, k)] = v
+        for i, cell in enumerate(f.__closure__ or ()):
+            try:
+                cv = cell.cell_contents
+            except ValueError:
+                continue
+            if _is_state(cv):
+                out["cell:%s/%s.%s" % (mname, qual, f.__code__.co_freevars[i])] = cv
     return out
+
+
+def inventory_coverage(inv):
+    """two-way tie between the static inventory (translators/sharedstate.py) and the state found in the live modules:
+    every static location must resolve to a live object (or be explained), every live state-holding object must have
+    a static location; every object must be inspectable by the fingerprint (or of a trusted thread-safe type)."""
+    import types
+    mods = dict(state_modules())
+    static = {}
+    for l in inv["locations"]:
+        static.setdefault((l["kind"], l["module"]), set()).add(l["name"])
+    unresolved, resolved = [], 0
+    native_invisible = []
+    by_kind = {}
+
+    def resolve_qual(mod, qual):
+        obj = mod
+        for part in qual.split("."):
+            if part == "<locals>":
+                return "local"
+            obj = vars(obj).get(part) if isinstance(obj, type) else getattr(obj, part, None)
+            obj = getattr(obj, "__func__", obj)
+            if isinstance(obj, property):
+                obj = obj.fget
+            if obj is None:
+                return None
+        return obj
+    for l in inv["locations"]:
+        mod = mods.get(l["module"] if l["module"] != "__init__" else "__init__")
+        by_kind[l["kind"]] = by_kind.get(l["kind"], 0) + 1
+        if mod is None:
+            if l["module"] in ("evolve",) or ("fastparquet." + l["module"]) not in sys.modules:
+                continue                # a module nobody imports holds no state
+            unresolved.append("%s/%s (module not loaded)" % (l["module"], l["name"]))
+            continue
+        nm = l["name"]
+        ok = None
+        if l["kind"] == "module_global":
+            ok = hasattr(mod, nm) or any(x["name"] == nm and x is not l for x in inv["locations"] if x["module"] == l["module"])
+        elif l["kind"] == "class_attr":
+            cq, an = nm.rsplit(".", 1)
+            c = resolve_qual(mod, cq)
+            ok = c is not None and (c == "local" or an in vars(c) or hasattr(c, an))
+        elif l["kind"] == "default_arg":
+            fq, an = nm.rsplit(".", 1)
+            f = resolve_qual(mod, fq)
+            f = getattr(f, "__wrapped__", f)
+            ok = f == "local" or (isinstance(f, types.FunctionType) and an in function_defaults(f))
+        elif l["kind"] == "global_stmt":
+            ok = True                   # bound when the function runs: the globals dict of the module is watched
+        elif l["kind"] == "memo_decorator":
+            f = resolve_qual(mod, nm)
+            ok = f is not None
+        elif l["kind"] == "func_attr":
+            on, an = nm.rsplit(".", 1)
+            o = resolve_qual(mod, on)
+            ok = o is not None and (o == "local" or hasattr(o, an))
+        elif l["kind"] == "closure_cell":
+            ok = True                   # cells of nested functions live as long as the call (or are reached from state)
+        if ok:
+            resolved += 1
+        elif l.get("valkind") == "pyx":
+            native_invisible.append("%s/%s" % (l["module"], nm))     # cdef global: not a Python attribute
+        else:
+            unresolved.append("%s %s/%s" % (l["kind"], l["module"], nm))
+    # live -> static
+    dynamic_only = []
+    roots = _module_roots()
+    for path, v in roots.items():
+        if not _is_state(v):
+            continue
+        if path.startswith("class:"):
+            cn, an = path[6:].split("/", 1)
+            if not any(n.endswith("%s.%s" % (cn, an)) for (k, m), ns in static.items() if k == "class_attr" for n in ns):
+                dynamic_only.append(path)
+        elif path.startswith("default:"):
+            m, rest = path[8:].split("/", 1)
+            if rest not in static.get(("default_arg", m), ()):
+                dynamic_only.append(path)
+        elif path.startswith("fattr:"):
+            m, rest = path[6:].split("/", 1)
+            if rest not in static.get(("func_attr", m), ()):
+                dynamic_only.append(path)
+        elif path.startswith("cell:"):
+            pass
+        else:
+            m, n_ = path.split("/", 1)
+            # the same object may be bound in several modules (from .util import ops): any statically known binding counts
+            binds = [(m2, n2) for m2, mod2 in mods.items() for n2, v2 in list(vars(mod2).items()) if v2 is v]
+            if not any(n2 in static.get(("module_global", m2), ()) or any(
+                    x.startswith(n2 + "@") for x in static.get(("global_stmt", m2), ())) for m2, n2 in binds + [(m, n_)]):
+                dynamic_only.append(path)
+    OPAQUE.clear()
+    fp = {}
+    seen = {}
+    for k, v in roots.items():
+        _walk("/@module/" + k, v, fp, seen, None)
+    opaque = ["%s at %s" % (t, p_) for t, p_ in sorted(OPAQUE.items())]
+    types_seen = {}
+    for v in roots.values():
+        types_seen[type(v).__name__] = types_seen.get(type(v).__name__, 0) + 1
+    return {"static_locations": len(inv["locations"]), "by_kind": by_kind, "resolved": resolved, "unresolved": unresolved,
+            "live_roots": len(roots), "live_state_roots": sum(1 for v in roots.values() if _is_state(v)),
+            "dynamic_only": dynamic_only, "opaque": opaque, "native_cdef_globals_invisible": native_invisible, "root_types": types_seen, "fingerprint_leaves": len(fp)}
 
 
 def fingerprint(root, scratch_values=None):
@@ -296,7 +537,7 @@ def containers(root):
     stack = [root]
     for _, mod in state_modules():
         out.append(vars(mod))
-    for _, cls in state_classes():
+    for _, cls in package_classes():
         out.append(dict(vars(cls)))             # mappingproxy: a copy is enough for keys + value ids
     stack.extend(module_roots().values())
     while stack:
@@ -304,7 +545,7 @@ def containers(root):
         tn = type(v).__name__
         if tn == "ThriftObject":
             v = v.contents
-        elif tn in ("ParquetFile", "SchemaHelper", "CodecCache"):
+        elif _pkg_instance(v):
             v = v.__dict__
         if isinstance(v, dict):
             if id(v) in seen:
@@ -318,7 +559,79 @@ def containers(root):
             seen.add(id(v))
             out.append(v)
             stack.extend(v)
+        elif _volatile(v) and id(v) not in seen:
+            seen.add(id(v))
+            out.append(_Vol(v))
+        elif _callable_with_state(v) and id(v) not in seen:
+            seen.add(id(v))
+            stack.extend(x for _, x in _callable_state(v))
     return out
+
+
+def _callable_with_state(v):
+    import types
+    import functools
+    if isinstance(v, types.FunctionType):
+        return bool(v.__closure__)
+    if isinstance(v, types.MethodType):
+        s_ = v.__self__
+        return _pkg_instance(s_) or _volatile(s_) or isinstance(s_, (dict, list))
+    return isinstance(v, functools.partial)
+
+
+def _callable_state(v):
+    import types
+    import functools
+    out = []
+    if isinstance(v, types.FunctionType):
+        for nm, cell in zip(v.__code__.co_freevars, v.__closure__ or ()):
+            try:
+                out.append((nm, cell.cell_contents))
+            except ValueError:
+                pass
+    elif isinstance(v, types.MethodType):
+        out.append(("self", v.__self__))
+    elif isinstance(v, functools.partial):
+        out += [("arg%d" % i, a) for i, a in enumerate(v.args)] + [(k, a) for k, a in (v.keywords or {}).items()]
+        out.append(("func", v.func))
+    return out
+
+
+class _Vol:
+    """a leaf object with internal mutable state (file position, scratch buffer): its cheap state is part of the
+    identity signature, so that an in-place change is attributed to the line that made it"""
+    __slots__ = ("o",)
+
+    def __init__(self, o):
+        self.o = o
+
+    def sig(self):
+        o = self.o
+        try:
+            if hasattr(o, "so_far"):
+                return (o.tell(), hash(bytes(o.so_far())))
+            if hasattr(o, "tell"):
+                return o.tell() if not getattr(o, "closed", False) else -1
+            if isinstance(o, bytearray):
+                return hash(bytes(o))
+            return hash(o.tobytes())
+        except Exception:           # noqa
+            return None
+
+
+def _volatile(v):
+    if isinstance(v, bytearray):
+        return True
+    if hasattr(v, "tell") and (hasattr(v, "read") or hasattr(v, "so_far")):
+        return True
+    return type(v).__name__ == "ndarray" and v.nbytes <= 4096 and v.dtype != object
+
+
+def _pkg_instance(v):
+    """an instance (not a class, not a function) of a class defined in the package that keeps its state in __dict__"""
+    t = type(v)
+    return (getattr(t, "__module__", "") or "").startswith("fastparquet") and not isinstance(v, type) \
+        and isinstance(getattr(v, "__dict__", None), dict) and t.__name__ != "ThriftObject"
 
 
 def fast_sig(conts):
@@ -330,6 +643,9 @@ def fast_sig(conts):
     takes the full fingerprint every FULL_EVERY lines)."""
     acc = []
     for c in conts:
+        if type(c) is _Vol:
+            acc.append(c.sig())
+            continue
         if isinstance(c, dict):
             acc.append(tuple(c))
             acc.append(tuple(map(id, c.values())))
@@ -345,7 +661,7 @@ def _walk(path0, v0, out, seen, scratch_values):
         tn = type(v).__name__
         if tn == "ThriftObject":
             v = v.contents
-        elif tn in ("ParquetFile", "SchemaHelper", "CodecCache"):
+        elif _pkg_instance(v):
             v = v.__dict__
         if isinstance(v, (set, frozenset)):
             out[path] = "set%d:%s" % (len(v), sha(repr(sorted(repr(x) for x in v)))[:12])
@@ -369,6 +685,11 @@ def _walk(path0, v0, out, seen, scratch_values):
                 stack.append((path + "/" + str(i), x))
         elif v is None:
             pass            # None is the "not computed yet" marker of every memo attribute: absent
+        elif _callable_with_state(v) and id(v) not in seen:
+            seen[id(v)] = path          # a callable kept in state: what it closes over / is bound to is state too
+            out[path] = _leaf(v, path)
+            for nm, x in _callable_state(v):
+                stack.append((path + "/<" + nm + ">", x))
         else:
             p = path[1:]
             if p.startswith(SCRATCH_PREFIXES):
@@ -376,7 +697,7 @@ def _walk(path0, v0, out, seen, scratch_values):
                     scratch_values[p] = _leaf(v)
                 out[path] = "present"
             else:
-                out[path] = _leaf(v)
+                out[path] = _leaf(v, path)
 
 
 class Interner:
@@ -463,7 +784,7 @@ def warm_opcodes():
 
 
 
-def trace_footprint(pf, op, shared=None, root=None, full_every=FULL_EVERY, opcodes=False):
+def trace_footprint(pf, op, shared=None, root=None, full_every=FULL_EVERY, opcodes=False, cover=None):
     """Run `op` alone under the tracer; returns (raw result, changes, number of line events, scratch
     overwrites) where changes = [(tag, fingerprint), ...] with one entry per CHANGE of the fingerprint
     (first entry = state before the operation).  At every line event the cheap signature is taken;
@@ -492,18 +813,30 @@ def trace_footprint(pf, op, shared=None, root=None, full_every=FULL_EVERY, opcod
                     scr_over[0] += 1
             last_scr[0] = sc
 
+    prev = ["?", 0]           # the line event before this one: the statement that performed a write seen now ...
+    frame_last = {}           # ... or, when a callee has just returned, the pending statement of the frame returned into
+
     def on_line(frame):
         n[0] += 1
         sg = fast_sig(conts[0])
+        fid = id(frame)
         if sg != last_sig[0] or n[0] % full_every == 0:
-            full("%s:%d@%d" % (os.path.basename(frame.f_code.co_filename), frame.f_lineno or 0, n[0]))
+            pend = frame_last.get(fid)
+            full("%s:%d@%d|%s:%d|%s:%d" % (os.path.basename(frame.f_code.co_filename), frame.f_lineno or 0, n[0], prev[0], prev[1],
+                                           os.path.basename(frame.f_code.co_filename), pend if pend is not None else 0))
+        prev[0], prev[1] = os.path.basename(frame.f_code.co_filename), frame.f_lineno or 0
+        frame_last[fid] = prev[1]
+        if len(frame_last) > 4000:
+            frame_last.clear()
+        if cover is not None:
+            cover.add((prev[0], prev[1]))
     tr = make_tracer(prefix, on_line, opcodes)
     sys.settrace(tr)
     try:
         res = run_op_safe(pf, op, shared)
     finally:
         sys.settrace(None)
-    full("end")
+    full("end@%d|%s:%d" % (n[0], prev[0], prev[1]))
     return res, changes, n[0], scr_over[0]
 
 
@@ -515,6 +848,63 @@ def classify_trace(changes):
         chg = sorted(k for k in a if k in b and a[k] != b[k])
         add = sorted(k for k in b if k not in a)
         out.append((t1, "destructive" if (gone or chg) else "memo-add", {"gone": gone[:6], "changed": chg[:6], "added": add[:6]}))
+    return out
+
+
+PATTERN_CODE = {"check_then_act": 0, "idem_store": 1, "augmented": 2, "rmw": 3, "set_restore": 4, "multi_store": 5, "delete": 6,
+                "mutcall": 7, "plain": 8}
+
+
+def tag_prev(tag):
+    """candidate statements for a change seen at an event: [(file, line)] = the line event executed right before it, and
+    the pending statement of the frame the event belongs to (a store performed after a callee returned)"""
+    out = []
+    for part in tag.split("|")[1:]:
+        f, _, ln = part.rpartition(":")
+        try:
+            if int(ln) > 0:
+                out.append((f, int(ln)))
+        except ValueError:
+            pass
+    return out
+
+
+def site_index(inv):
+    idx = {}
+    for s_ in inv["sites"]:
+        idx.setdefault(s_["file"], []).append(s_)
+    return idx
+
+
+def site_for(idx, loc):
+    """the write site a (file, line) belongs to: narrowest statement range containing the line; stores before calls"""
+    if not loc:
+        return None
+    best = None
+    for ci, (f, ln) in enumerate(loc if isinstance(loc, list) else [loc]):
+        for s_ in idx.get(f, ()):
+            if s_["line"] <= ln <= s_["end_line"]:
+                # a store statement before a mutating call; the narrowest statement; the earlier candidate
+                key = (0 if s_["pattern"] != "mutcall" else 1, ci, s_["end_line"] - s_["line"])
+                if best is None or key < best[0]:
+                    best = (key, s_)
+    return best[1] if best else None
+
+
+def trace_events(changes, idx):
+    """write events of one trace for the extracted footprint check: [(key, old leaf | None, new leaf | None, pattern, site)]"""
+    out = []
+    for (t0, a), (t1, b) in zip(changes, changes[1:]):
+        site = site_for(idx, tag_prev(t1))
+        pat = site["pattern"] if site else "plain"
+        for k in a:
+            if k not in b:
+                out.append((k, a[k], None, pat, site))
+            elif a[k] != b[k]:
+                out.append((k, a[k], b[k], pat, site))
+        for k in b:
+            if k not in a:
+                out.append((k, None, b[k], pat, site))
     return out
 
 
@@ -558,6 +948,7 @@ class Sched:
         self.steps = [0] * n
         self.timeout = timeout
         self.dead = False
+        self.last = {}
 
     def _next(self):
         while self.pos < len(self.plan):
@@ -581,16 +972,26 @@ class Sched:
             self.dead = True
             raise SchedTimeout("thread %d never got its turn" % tid)
 
-    def on_line(self, tid, wrote=None):
+    def on_line(self, tid, wrote=None, frame=None):
         self.steps[tid] += 1
         if self.dead:
             raise SchedTimeout("schedule abandoned")
+        here = (os.path.basename(frame.f_code.co_filename), frame.f_lineno or 0) if frame is not None else None
+        was = self.last.get(tid)
+        self.last[tid] = here
         if self.pos >= len(self.plan):
             return
         e = self.plan[self.pos]
         if e[0] == tid:
             if len(e) > 2 and e[2] == "writes" and not (wrote is not None and wrote()):
                 return
+            if len(e) > 4 and e[2] == "left":       # the thread has just left the statement at (file, line)
+                site = (e[3], e[4])
+                if not (was == site and here != site):
+                    return
+            if len(e) > 4 and e[2] == "in":         # an event inside the statement at (file, line) (opcode granularity)
+                if here != (e[3], e[4]):
+                    return
             e[1] -= 1
             if e[1] > 0:
                 return
@@ -635,7 +1036,7 @@ def forced_run(pf, ops, plan, shared=None, timeout=30.0, root=None, opcodes=Fals
     def body(tid):
         try:
             sch.wait_turn(tid)
-            sys.settrace(make_tracer(prefix, lambda frame: sch.on_line(tid, wrote), opcodes[tid] if isinstance(opcodes, (list, tuple)) else opcodes))
+            sys.settrace(make_tracer(prefix, lambda frame: sch.on_line(tid, wrote, frame), opcodes[tid] if isinstance(opcodes, (list, tuple)) else opcodes))
             try:
                 res[tid] = run_op_safe(pf, ops[tid], shared)
             finally:
